@@ -32,7 +32,11 @@ def rebuild_nary(t, memo):
     r = E.build_leaf(t)
     if r is None:
         args = [rebuild_nary(x, memo) for x in t[1:]]
-        if t[0] in E.BIN_INFIX and len(args) > 2:
+        if t[0] == "add" and len(args) > 2 and t[-1][0] == "sub" and all(k[0] == "bvv" for k in t[-1][1:]):
+            # the only model node with a literal difference as last operand is the right-hand side of S3.sub_addN, whose root the
+            # simplifier creates raw: make_like(op, (..., c1 - c2)) without simplification (cf. RAW_TOP in lib/exprcheck.py)
+            r = args[0].make_like("__add__", tuple(args), simplify=False)
+        elif t[0] in E.BIN_INFIX and len(args) > 2:
             r = args[0].make_like(E.BIN_INFIX[t[0]], tuple(args), simplify=True)
         else:
             r = E.apply_op(t[0], args)
